@@ -17,7 +17,7 @@ func init() { Register(c10{}) }
 func (c10) ID() string    { return "C10" }
 func (c10) Level() string { return "fault_enumeration" }
 func (c10) Rule() string {
-	return "workload = valid file from a seeded fault-free writer run (>= 2 row groups in half of the files) x source kind {ReadSeeker; +ByteReader; +ByteReader+ReaderAt+WriterTo}. Cases per file: for EVERY source call k (Read, ReadByte and Seek share one counter) of the fault-free read: err0 transient (always); partial (n>0 bytes + error), early_eof ((0, io.EOF) before the end), and the sticky variants (fail from call k on) at every k whose read requests 256 bytes or more and a seeded 1-in-8 sample of the other k in quick, at every k in thorough; a Seek call fails with an error whatever the kind. Thorough adds an arm where the faulted read is also randomly fragmented, and 1% files of the large class (pages of 100..1200 records) with a seeded sample of about 400 call positions. Non-trivial = the fault actually fired (the source returned it); distinct = distinct (file digest, source kind, k, kind)."
+	return "workload = valid file from a seeded fault-free writer run (>= 2 row groups in half of the files) x source kind {ReadSeeker; +ByteReader; +ByteReader+ReaderAt+WriterTo}. Cases per file: for EVERY source call k (Read, ReadByte and Seek share one counter) of the fault-free read: err0 transient (always); partial (n>0 bytes + error), full (all requested bytes + error), early_eof ((0, io.EOF) before the end), and the sticky variants (fail from call k on) at every k whose read requests 256 bytes or more and a seeded 1-in-8 sample of the other k in quick, at every k in thorough; a Seek call fails with an error whatever the kind. Thorough adds an arm where the faulted read is also randomly fragmented, and 1% files of the large class (pages of 100..1200 records) with a seeded sample of about 400 call positions. Non-trivial = the fault actually fired (the source returned it); distinct = distinct (file digest, source kind, k, kind)."
 }
 func (c10) Assumptions() []string {
 	return []string{
@@ -87,13 +87,15 @@ func (p c10) Run(runseed uint64, tier string, acc *Acc) []*core.Violation {
 		if (f.W.Large || f.W.Many) && r.Intn(m) >= 400 {
 			continue // large and many-row-group classes: a seeded sample of about 400 call positions
 		}
-		faults := []core.SrcFault{{K: k, Kind: "err0"}}
+		fl := func() string { return core.Flavors[r.Intn(len(core.Flavors))] }
+		faults := []core.SrcFault{{K: k, Kind: "err0", Flavor: fl()}}
 		bigRead := k-1 < len(bsrc.Req) && bsrc.Req[k-1] >= 256 // page bodies and other bulk reads: always all kinds
 		if tier == "thorough" || bigRead || r.Chance(1, 8) {
 			faults = append(faults,
-				core.SrcFault{K: k, Kind: "partial", Arg: r.Intn(1 << 16)},
+				core.SrcFault{K: k, Kind: "partial", Arg: r.Intn(1 << 16), Flavor: fl()},
+				core.SrcFault{K: k, Kind: "full", Flavor: fl()},
 				core.SrcFault{K: k, Kind: "early_eof"},
-				core.SrcFault{K: k, Kind: "err0", Sticky: true},
+				core.SrcFault{K: k, Kind: "err0", Sticky: true, Flavor: fl()},
 				core.SrcFault{K: k, Kind: "early_eof", Sticky: true})
 		}
 		for i := range faults {
@@ -111,6 +113,9 @@ func (p c10) Run(runseed uint64, tier string, acc *Acc) []*core.Violation {
 					fk += "-sticky"
 				}
 				acc.Inc("fired/kind/" + fk)
+				if faults[i].Flavor != "" {
+					acc.Inc("fired/error-flavor/" + faults[i].Flavor)
+				}
 				acc.Inc("fired/" + src.FiredAPI + "/" + src.Stats.FiredOp)
 				if kind == "rsb" && src.Stats.FiredOp == "readbyte" {
 					acc.Inc("fired/rsb/readbyte")
@@ -206,6 +211,13 @@ func (p c10) Shrink(c *core.Case) []*core.Case {
 		n := *c
 		g := ft
 		g.Sticky = false
+		n.SrcFault = &g
+		out = append(out, &n)
+	}
+	if ft.Flavor != "" && ft.Flavor != "plain" {
+		n := *c
+		g := ft
+		g.Flavor = ""
 		n.SrcFault = &g
 		out = append(out, &n)
 	}
